@@ -984,7 +984,9 @@ func runC04(c *Checker) {
 	v2, _ := constant.Int64Val(constant.ToInt(hv2.Val()))
 	sp := findCalls(dh, func(ci ssa.CallInstruction) bool { return ci.Common().StaticCallee() == split })
 	pub := func(method string, arg *types.Var, guard func(Fact) bool, what string) {
-		calls := findCalls(dh, func(ci ssa.CallInstruction) bool { return ci.Common().IsInvoke() && ci.Common().Method.Name() == method })
+		calls := findCalls(dh, func(ci ssa.CallInstruction) bool {
+			return ci.Common().IsInvoke() && ci.Common().Method.Name() == method
+		})
 		okk := len(calls) == 1 && len(sp) == 1
 		why := fmt.Sprintf("%d %s calls", len(calls), method)
 		if okk {
